@@ -1,9 +1,23 @@
-// Package quiet silences neptune's default logger so that harness output stays canonical.
+// Package quiet keeps neptune's default logger out of the harness output WITHOUT switching its code off: the default
+// logger is replaced by one with the same level (debug), the same encoder and the same options, whose sink discards
+// the bytes. Every ulog call in the code under test still evaluates its fields and runs the encoder, so a panic or a
+// side effect inside a log statement is exhibited exactly as with the stock logger.
 package quiet
 
 import (
+	"io"
+
 	"github.com/pinealctx/neptune/ulog"
+	"go.uber.org/zap"
 	"go.uber.org/zap/zapcore"
 )
 
-func init() { ulog.SetLogLevel(zapcore.FatalLevel) }
+func init() {
+	enc := zap.NewProductionEncoderConfig()
+	enc.EncodeTime = zapcore.ISO8601TimeEncoder
+	sink := zap.WrapCore(func(zapcore.Core) zapcore.Core {
+		return zapcore.NewCore(zapcore.NewJSONEncoder(enc), zapcore.AddSync(io.Discard), zapcore.DebugLevel)
+	})
+	// ulog's own init uses AddCaller + AddCallerSkip(2) and stores the logger directly; SetDefaultLogger adds one skip.
+	ulog.SetDefaultLogger(ulog.NewSimpleLogger(ulog.DebugLevelStr, zap.AddCaller(), zap.AddCallerSkip(1), sink))
+}
